@@ -21,12 +21,24 @@ def H(name, common=None, quick=None, thorough=None):
     c.update(common or {})
     return {"name": name, "common": c, "quick": quick or {}, "thorough": thorough or {"validate": 20}}
 
-prop("C01", [H("K2_uvarint_rt"), H("K2_uvarint_agree"), H("K3_freqHasLocs"), H("K4_1hit")],
-     explanation="kernel layer only so far")
 
-prop("C08", [H("H08_dict", common={"param": "provs=4"}, quick={"wall": "100s", "shards": 8})])
+KERNELS_CODEC = [H("K2_uvarint_rt"), H("K2_uvarint_agree"), H("K3_freqHasLocs"), H("K4_1hit")]
 
-prop("C12", [H("H12_syn", common={"param": "maxSyn=2"}, quick={"wall": "100s", "shards": 8})])
-prop("C13", [H("H13_synmerge", common={"param": "maxSyn=1,emptyTerm=1"}, quick={"wall": "100s", "shards": 8})])
-
+prop("C01", KERNELS_CODEC + [
+    H("H01_shape", quick={"wall": "150s", "shards": 12}, thorough={"wall": "900s", "shards": 16, "param": "deep=1"}),
+    H("H01_width", quick={"wall": "150s", "shards": 4}, thorough={"wall": "900s", "shards": 8}),
+])
+prop("C02", [H("H02_stored", quick={"wall": "150s", "shards": 16}, thorough={"wall": "900s", "shards": 16})])
+prop("C03", [H("H03_dv", common={"param": "maxDocs=2,maxSeq=4"}, quick={"wall": "150s", "shards": 16}, thorough={"wall": "900s", "shards": 16, "param": "maxDocs=3,maxSeq=4"})])
+prop("C04", [H("K7_footer"), H("H04_persist", quick={"wall": "150s", "shards": 16}, thorough={"wall": "900s", "shards": 16})])
+prop("C05", [H("H05_merge", common={"param": "maxDocs=1,tieReopen=1,maxOcc=3"}, quick={"wall": "150s", "shards": 16}, thorough={"wall": "1200s", "shards": 16, "param": "maxDocs=2,tieReopen=0,maxOcc=3"})])
+prop("C06", KERNELS_CODEC[2:] + [H("H06_merge", common={"param": "maxDocs=1,tieReopen=1"}, quick={"wall": "150s", "shards": 16}, thorough={"wall": "1200s", "shards": 16, "param": "maxDocs=2,tieReopen=0"})])
+prop("C07", [H("H07_seq", common={"param": "maxN=4,maxL=2,maxLocs=1,variants=3"}, quick={"wall": "150s", "shards": 16}, thorough={"wall": "1200s", "shards": 16, "param": "maxN=5,maxL=3,maxLocs=1,variants=3"})])
+prop("C08", [H("H08_dict", common={"param": "provs=5"}, quick={"wall": "150s", "shards": 16}, thorough={"wall": "1200s", "shards": 16})])
+prop("C12", [H("H12_syn", common={"param": "maxSyn=2"}, quick={"wall": "150s", "shards": 16})])
+prop("C13", [H("H13_synmerge", common={"param": "maxSyn=1,emptyTerm=1"}, quick={"wall": "150s", "shards": 16}, thorough={"wall": "1200s", "shards": 16, "param": "maxSyn=2,emptyTerm=1,twoGen=1"})])
 prop("C11", [H("H11_pool", quick={"wall": "100s", "shards": 4}), H("H11_effects", quick={"wall": "100s", "shards": 4})])
+prop("C17", [H("H17_writeTo"), H("H17_persist"),
+             H("H17_merge", common={"param": "mergeBuf=16"}, quick={"wall": "100s"}),
+             H("H17_merge", common={"param": "mergeBuf=64"}, quick={"wall": "100s"})])
+prop("C18", [H("H18_cancel", quick={"wall": "100s"})])
